@@ -37,7 +37,8 @@ Proof.
   intros Hl. unfold soi_cases_of. rewrite !frc_scale, em1_scale by auto.
   destruct (frc RO a T) as [f1 g1]. destruct (frc RO ab T) as [f2 g2]. destruct (em1 RO a T) as [e1 e2].
   unfold cite, cdivr, csub, cadd, cscal, c1, o2; simpl.
-  destruct m1; [|destruct m2]; apply c_eq; simpl; unfold Rdiv; rewrite ?Rinv_mult, ?Rinv_inv; ring.
+  destruct m1; [|destruct m2]; apply c_eq; simpl; unfold Rdiv; repeat rewrite Rinv_mult; repeat rewrite Rinv_inv;
+    generalize (/ a) (/ b); intros ia ib; field; lra.
 Qed.
 
 Theorem time_scaling_soi_core thr2 a b ab T lam : 0 < lam ->
@@ -59,25 +60,26 @@ Qed.
 Definition soi_core_absmask (thr2 dEE EdE dEdE dt : R) : Cx :=
   soi_cases_of RO (Rgtb (Rabs EdE) thr2) (Rgtb (Rabs dEE) thr2) dEE EdE dEdE dt.
 
-(* with absolute masks the scaling law fails: thr2 = 1e-8, a = 0, b = 1, T = 1, time unit x 1e9 *)
+(* with absolute masks the scaling law fails: thr2 = 1e-8, a = 0, b = 4, T = 1, time unit x 1e9
+   (unscaled: case 1, imaginary part (1 - sin(4)/4)/4 <= 5/16; scaled: case 3, imaginary part lam^2 * 4/6) *)
 Theorem time_scaling_soi_refuted_absolute_mask :
   exists thr2 a b T lam, 0 < lam /\ 0 < thr2 /\
     soi_core_absmask thr2 (a / lam) (b / lam) ((a + b) / lam) (lam * T)
     <> cscal RO (lam * lam) (soi_core_absmask thr2 a b (a + b) T).
 Proof.
-  exists (/ 100000000), 0, 1, 1, 1000000000. split. lra. split. lra.
+  exists (/ 100000000), 0, 4, 1, 1000000000. split. lra. split. lra.
   unfold soi_core_absmask.
-  assert (H1 : Rgtb (Rabs (1 / 1000000000)) (/ 100000000) = false).
+  assert (H1 : Rgtb (Rabs (4 / 1000000000)) (/ 100000000) = false).
   { apply Rgtb_false. rewrite Rabs_right by lra. lra. }
   assert (H2 : Rgtb (Rabs (0 / 1000000000)) (/ 100000000) = false).
   { apply Rgtb_false. unfold Rdiv. rewrite Rmult_0_l, Rabs_R0. lra. }
-  assert (H3 : Rgtb (Rabs 1) (/ 100000000) = true).
-  { apply Rgtb_true. rewrite Rabs_R1. lra. }
+  assert (H3 : Rgtb (Rabs 4) (/ 100000000) = true).
+  { apply Rgtb_true. rewrite Rabs_right by lra. lra. }
   rewrite H1, H2, H3. unfold soi_cases_of, cite. cbn [fst snd].
-  replace (0 + 1) with 1 by ring. rewrite frc_0, (frc_nz 1 1) by lra.
-  intros E. apply (f_equal snd) in E. unfold cdivr, csub, cscal in E. simpl in E.
-  assert (Hs : sin 1 < 1) by (apply sin_lt_x; lra).
-  replace (1 * 1) with 1 in E by ring. unfold Rdiv in E. rewrite Rinv_1 in E. nra.
+  replace (0 + 4) with 4 by ring. rewrite frc_0, (frc_nz 4 1) by lra.
+  intros E. apply (f_equal snd) in E. unfold cdivr, csub, cscal, o2 in E. simpl in E.
+  pose proof (SIN_bound (4 * 1)) as [Hs1 Hs2].
+  set (s4 := sin (4 * 1)) in *. clearbody s4. lra.
 Qed.
 
 (* ------------------------------------------------------------------ the whole filter function *)
